@@ -553,10 +553,10 @@ func xnodeEqual(a, b *XNode) bool {
 	return reflect.DeepEqual(a, b)
 }
 
-func classifyLoss(before *dnode, diffs []string) string {
+func classifyLoss(before, after *dnode, diffs []string) string {
 	k := lossKey(diffs[0])
 	switch {
-	case before.hasType("SDT"):
+	case before.hasType("SDT") && !after.hasType("SDT"):
 		return "q_sdt_dropped_on_open"
 	case before.hasType("MathParagraph"):
 		return "q_math_dropped_on_open"
@@ -612,7 +612,7 @@ func runC03(cfg *runCfg) error {
 		var diffs []string
 		diffNodes("", before, after, &diffs, 20)
 		if len(diffs) > 0 {
-			fail("same_body", classifyLoss(before, diffs), strings.Join(diffs[:min(3, len(diffs))], " | "))
+			fail("same_body", classifyLoss(before, after, diffs), strings.Join(diffs[:min(3, len(diffs))], " | "))
 		}
 		d3, data2, err := reopen(d2)
 		if err != nil {
